@@ -45,11 +45,13 @@ pub struct Opts {
     pub reloc: bool,
     /// check that user code only ran on elements the call may look at
     pub touch: bool,
+    /// C12: a conversion that discards elements destroys each of them exactly once, also when one of their destructors panics
+    pub strict_ctor: bool,
 }
 
 impl Default for Opts {
     fn default() -> Self {
-        Opts { reloc: false, touch: true }
+        Opts { reloc: false, touch: true, strict_ctor: false }
     }
 }
 
